@@ -101,6 +101,9 @@ def group_main():
     elif mode == "exec_seq":
         res = exec_seq_pristine(eng, req["records"], limit)
         emit(res)
+    elif mode == "exec_seqs":
+        for res in forkpool.run_jobs(lambda rs: _run_seq(eng, rs), req["sequences"], workers=min(nworkers, 8), limit_s=limit + 60):
+            emit(res)
     elif mode == "triage":
         emit(triage(eng, req, nworkers, limit, hashseed))
     else:
@@ -114,6 +117,8 @@ def spawn_group(req, hashseed=0):
     env["PYTHONDONTWRITEBYTECODE"] = "1"
     env["VERIF_REPO"] = REPO
     env.pop("PYTHONPATH", None)
+    if os.path.realpath(REPO) != "/repo":
+        env["PYTHONPATH"] = REPO  # a scratch worktree under test: found before /venv's editable install of /repo
     req = dict(req)
     req["hashseed"] = hashseed
     p = subprocess.Popen([PY, os.path.join(VERIF, "verif.py"), "_group"], stdin=subprocess.PIPE, stdout=subprocess.PIPE,
